@@ -568,7 +568,17 @@ func writeReplay(ev, prop string, o *Obligation, repo string) string {
 	qfile := filepath.Join(dir, base+".smt2")
 	os.WriteFile(qfile, []byte(z3Pre+o.query()+"(check-sat)\n"), 0o644)
 	rp := filepath.Join(dir, base+".json")
+	model := ""
+	if o.Res.Status == "sat" {
+		// quantifier-free failure: keep the solver's counterexample (values of the symbolic inputs) with the record
+		mr := solve(o.query(), 10, true)
+		model = mr.Output
+		if len(model) > 6000 {
+			model = model[:6000] + "\n..."
+		}
+	}
 	rec := map[string]interface{}{
+		"solver_model": model,
 		"property":       prop,
 		"obligation":     o.Name,
 		"kind":           o.Kind,
